@@ -6,7 +6,6 @@ import (
 	"errors"
 	"fmt"
 	"io"
-	"strings"
 	"sync"
 
 	"github.com/ddddddO/gtree"
@@ -43,7 +42,7 @@ func (r *RowRec) Callback(wn *gtree.WalkerNode) error {
 // WalkMD runs WalkFromMarkdown and returns the visited rows.
 func WalkMD(doc string, opts ...gtree.Option) ([]model.Row, Outcome) {
 	rec := NewRowRec()
-	o := Guard(func() error { return gtree.WalkFromMarkdown(strings.NewReader(doc), rec.Callback, opts...) })
+	o := Guard(func() error { return gtree.WalkFromMarkdown(MDReader(doc), rec.Callback, opts...) })
 	return rec.Rows, o
 }
 
